@@ -4,7 +4,7 @@ import math
 
 import numpy as np
 
-from .. import cases, cmp, corpus, gen, sim, expect
+from .. import cases, cmp, corpus, gen, sim, expect, w4
 from ..harness import CaseResult
 from ..probe import read
 
@@ -36,20 +36,22 @@ REQUIRED_REACH = ["scale_mean", "scale_stddev", "scale_stderr", "scale_median", 
                   "strand_scale", "none_when_no_values", "class:median_exact_half",
                   "class:subtotal_vector", "class:vector_without_valued_respondents"]
 BATCH = 40
-RULE = RULE + corpus.RULE_SUFFIX
-REQUIRED_REACH = list(REQUIRED_REACH) + ["class:corpus"]
+RULE = RULE + corpus.RULE_SUFFIX + w4.RULE_SUFFIX
+REQUIRED_REACH = list(REQUIRED_REACH) + ["class:corpus", "class:w4"]
 TECHNIQUE = TECHNIQUE + corpus.TECHNIQUE_SUFFIX
 
 
 def units(tier, seed):
     n = 1000 if tier == "quick" else 30000
     # W1 synthetic surveys, then W3: the fixture corpus under the intrinsic relations
-    return [{"i": i, "seed": seed} for i in range(n)] + corpus.units(tier, seed)
+    return [{"i": i, "seed": seed} for i in range(n)] + corpus.units(tier, seed) + w4.units(tier, seed)
 
 
 def make_case(unit):
     if "corpus" in unit:
         return corpus.make_case(ID, unit)
+    if "w4" in unit:
+        return w4.make_case(ID, unit)
     i = unit["i"]
     g = gen.G("C14/%s/%s" % (unit["seed"], i))
     template = TEMPLATES[i % len(TEMPLATES)]
@@ -145,6 +147,8 @@ def _values(o, d):
 def check_case(case):
     if "fixture" in case:
         return corpus.check_case(ID, case)
+    if case.get("w4"):
+        return w4.check_case(ID, case)
     res = CaseResult()
     L = cases.realize(case)
     o = L.oracle
